@@ -87,7 +87,7 @@ SIM = {
         "props": ["C12"],
         "designs": [],
         "profiles": [{"p_txn": 0.7, "p_cancel": 0.4, "p_replace": 0.4, "p_update": 0.25, "p_suspend": 0.25, "p_mver": 0.3, "p_trade": 0.85, "p_action": 0.85, "max_orders": 10, "n_strategies": (1, 1), "p_multi_trade": 0.4, "p_removal": 0.06}],
-        "extra": "replace_package",
+        "extra": ["replace_package", "failed_packages"],
         "n_quick": 120, "n_thorough": 3000,
         "rule": "",
         "assumptions": ASSUME_SIM,
@@ -98,6 +98,7 @@ SIM = {
                     {"module": "MC_TxnCount", "constants": {"MaxSteps": "8"}, "invariants": ["Inv_TotalsExact", "Inv_HourlyExact", "Inv_UnlimitedNeverBlocked"], "properties": ["Prop_VerdictExact"], "tier": "thorough", "timeout": 1500}],
         "profiles": [{"p_txlimit": 0.8, "p_two_clients": 0.6, "gaps": [1000, 200, 600000, 3500000, 3600000, 86400000, 1799000, 121], "p_action": 0.85, "p_txn": 0.4, "p_cancel": 0.35, "p_replace": 0.3, "p_suspend": 0.15, "max_orders": 12, "n_updates": (8, 20), "p_force": 0.1},
                      {"p_txlimit": 1.0, "gaps": [100, 500, 3600000, 1000], "p_action": 0.9, "n_strategies": (2, 2), "max_orders": 12}],
+        "extra": ["failed_packages"],
         "n_quick": 160, "n_thorough": 4000,
         "rule": "simulation runs whose publish times span hour and day boundaries, clients with transaction limits 0..5 or none (one or two clients), packages of any kind with failures; every call of the control and every handler judged against TxnCount.tla; totals against the instructions the specification says were submitted",
         "assumptions": ASSUME_SIM + ["simulation mode (simulated clock); the live half with concurrently finishing handlers is decided by the live driver"],
@@ -112,6 +113,7 @@ SIM = {
     },
     "C04": {
         "props": ["C04"],
+        "extra": ["early_result"],
         "designs": simcore_designs(["Inv_C04_Conserved", "Inv_C04_CompleteIff"], ["Prop_C04_MatchedMonotone"])
         + simrun_designs(["Inv_C04_Conserved", "Inv_C04_CompleteIff"], ["Prop_C04_MatchedMonotone"]),
         "profiles": LIFECYCLE_PROFILES + [{"p_partial_cancel": 0.8, "p_big_reduction": 0.5, "p_removal": 0.12, "p_cancel": 0.5}],
@@ -169,7 +171,7 @@ SIM = {
         "profiles": [{"p_removal": 0.15, "p_sp_order": 0.25, "p_moc_pers": 0.2, "p_inplay": 0.15, "p_partial_cancel": 0.6, "p_cancel": 0.4},
                      {"p_removal": 0.12, "n_markets": (2, 2), "event_processing": True},
                      {"p_removal": 0.12, "n_markets": (2, 2)}],
-        "extra": "two_market_removal",
+        "extra": ["two_market_removal", "early_result"],
         "n_quick": 180, "n_thorough": 5000,
         "rule": "removals with factors None/0/below/at/above 2.5 up to 99 at random points of random histories (orders in every state), plus the same selection+factor removed in two markets of one run (sequential and event-grouped)",
         "assumptions": ASSUME_SIM + ["price reduction checked within half a cent of p*(1-af/100) (floating-point rounding of ties is not decided)"],
